@@ -2109,7 +2109,11 @@ class Engine:
                     sv = args[star_at]
                     items = self.static_items(sv)
                     if items is None:
-                        raise Unsupported(e, '*args of symbolic sequence')
+                        if f.k == 'func' and isinstance(f.py, tuple) and f.py[0] == 'spec':
+                            # a ghost (contract-defined) callee gets the sequence as one marked argument
+                            items = [V('star', extra={'seq': sv})]
+                        else:
+                            raise Unsupported(e, '*args of symbolic sequence')
                     args = args[:star_at] + list(items) + args[star_at + 1:]
                 kwargs = dict(zip(kwnames, vs[len(argexprs):]))
                 out.extend(self.call(f, args, kwargs, st2, e))
